@@ -6,3 +6,5 @@ import MtailVerif.Props.C17
 #print axioms MtailVerif.C17.output_closes_after_cancel
 #print axioms MtailVerif.C17.streams_skeletons
 #print axioms MtailVerif.C17.dispatch_skeletons
+#print axioms MtailVerif.C17.no_send_on_closed_lines
+#print axioms MtailVerif.C17.counting_after_accept_is_unsafe
